@@ -52,6 +52,14 @@ theorem modelRows_total (P : Params) : ∃ rows, modelRows P = some rows ∧ row
   rw [lower_graph8]
   rfl
 
+/-- no two passes of the model have the same row — already kind and operands (the first five columns) differ — for every `P`: counting
+    block operations with equal rows once (the stripes of a pass, `SoftmaxLower.groupsOf`) cannot identify two passes of a correct stream -/
+theorem modelRows_nodup (P : Params) : ((prog8 P).map NStep.row).Nodup := by
+  have h : (((prog8 P).map NStep.row).map (List.take 5)).Nodup := by
+    have e : ((prog8 P).map NStep.row).map (List.take 5) = ((prog8 ⟨0, 0, 0, 0⟩).map NStep.row).map (List.take 5) := rfl
+    rw [e]; decide
+  exact List.Pairwise.of_map (List.take 5) (fun a b hab he => hab (by rw [he])) h
+
 /-- with the main theorem of `C01Softmax`: a stream whose rows are the model rows computes the TFLite 8-bit kernel on every row of
     1 … 511 codes (hypotheses as there) -/
 theorem rows_eq_model_reference (P : Params) (rows : List (List Int)) (h : modelRows P = some rows)
